@@ -30,6 +30,8 @@ pub struct Acc {
     pub sets: BTreeMap<String, BTreeSet<String>>,
     pub samples: BTreeMap<String, Vec<String>>,
     pub inconclusive: Vec<String>,
+    /// exported chains (JSON lines) of a PyO3 boundary replay workload; not part of the summary
+    pub export_lines: Vec<String>,
 }
 
 impl Acc {
@@ -99,6 +101,7 @@ impl Acc {
             }
         }
         self.inconclusive.extend(o.inconclusive);
+        self.export_lines.extend(o.export_lines);
     }
 }
 
